@@ -139,6 +139,8 @@ def gen_case(rng, depth, nops):
             c["ops"].append({"mode": "grow", "extra": rng.choice([1, 64, 1000])}); continue
         if r < 0.16:
             c["ops"].append({"mode": rng.choice(["misuse_ctx", "misuse_offset"]), "expect": None, "misuse": "wrong-owner"}); continue
+        if r < 0.19 and wrong_tail(t, cur) is not None:
+            c["ops"].append({"mode": "misuse_construct_at", "bad": wrong_tail(t, cur), "expect": None, "misuse": "refused-construction-at-reserved-offset"}); continue
         p, et = rng.choice(paths)
         apool = [(q, qt) for q, qt in paths if qt["k"] == "array"]
         if apool and rng.random() < 0.3:      # whole-array operations deserve their share
@@ -231,6 +233,16 @@ def systematic_cases(rng):
                     if j == 0:
                         ops.append({"mode": "grow", "extra": 64})
                 ops.append({"mode": "set", "path": [["f", 1], ["i", n - 2]], "new": [200, 100], "via": "handle", "form": "py", "expect": True})
+                # misuse, systematically: the same number of items under another shape, one item more along an axis,
+                # a last item of the wrong kind -- each must be refused and change nothing
+                def other(shape, off, form, via):
+                    m = 1
+                    for d in shape: m *= d
+                    return {"mode": "set", "path": [["f", 1]], "new": {"shape": list(shape), "items": [[(3 * i + off) & 255, 1] for i in range(m)]},
+                            "via": via, "form": form, "expect": False, "misuse": "wrong-length-or-shape"}
+                ops.append(other(list(reversed(dims)) if nd == 2 else [3, 2, 2], 70, "py", "handle"))
+                ops.append(other([n] + [1] * (nd - 1), 80, "np", "view"))
+                ops.append(other([dims[0] + 1] + dims[1:], 90, "py", "view"))
                 out.append({"type": t, "value": v, "prep": dict(prep, kind=rng.choice(["numpy", "bytearray"])), "ops": ops})
     return out
 
@@ -310,6 +322,13 @@ def judge_case(pid, c, r, coq_fail):
                 elif st["bytes"] != prev_bytes or G.strip_sizes(st.get("readback")) != G.strip_sizes(cur):
                     out.append(("C10/value-changed-by-buffer-growth", "object changed while the buffer grew", k))
             prev_bytes = st["bytes"]; continue
+        if pid == "C11" and r.get("parts0") is not None and st.get("parts") is not None and st["parts"] != r["parts0"]:
+            # "the size of an instance cannot change after creation": whatever the operation was and whether it was
+            # accepted or refused, every nested struct / array still reports the (offset, size) it had at creation
+            d = [(a, b2) for a, b2 in zip(r["parts0"], st["parts"]) if a != b2][:1]
+            out.append(("C11/size-of-an-instance-changed-after-creation/%s" % (op.get("misuse") or ("accepted" if st.get("ok") else "refused")),
+                        "nested part (path, offset, size) at creation %s, now %s" % (d[0] if d else ("?", "?")), k))
+            break
         fitting = mode == "set" and op.get("expect") is True
         if fitting:
             p = [tuple(s) for s in op["path"]]
@@ -347,6 +366,8 @@ def judge_case(pid, c, r, coq_fail):
                                 "an operation that cannot be honoured did not raise", k))
                 elif st["bytes"] != prev_bytes or st["outside_changed"]:
                     out.append(("C11/%s-raised-but-modified-data" % mis, "raised %s after changing bytes" % st.get("exc"), k))
+                elif "spare" in st and "realloc" in st and not (st["realloc"][0] + st["realloc"][1] <= st["spare"][0] or st["spare"][0] + st["spare"][1] <= st["realloc"][0]) and st["spare"][1] > 0:
+                    out.append(("C11/%s-released-the-region-of-the-caller" % mis, "the refused construction at offset %d left that region free: the next allocation got [%d,%d)" % (st["spare"][0], st["realloc"][0], st["realloc"][0] + st["realloc"][1]), k))
             # whatever happened, later expectations follow what the implementation now holds: stop judging this case
             if st["ok"] or st["bytes"] != prev_bytes:
                 break
@@ -412,6 +433,8 @@ def run(ctx):
     nfixed = len(cases)
     while len(cases) < bud["n"] + nfixed:
         cases.append(gen_case(rng, bud["depth"], bud["nops"]))
+    if pid == "C11":
+        for c in cases: c["report_parts"] = True
     sh = (len(cases) + bud["shards"] - 1) // bud["shards"]
     results = []
     for r in run_impl_parallel(ctx, "update", [{"cases": cases[i:i + sh]} for i in range(0, len(cases), sh)]):
